@@ -4,6 +4,7 @@ import (
 	"fmt"
 	"go/token"
 	"math"
+	"regexp"
 	"sort"
 	"strings"
 
@@ -488,4 +489,77 @@ func (r Rel) Orient(mx, my string) (Rel, bool) {
 
 func (r Rel) SameInterval(lo, hi int64) bool {
 	return r.Pred == "" && !r.Neq && r.Lo == lo && r.Hi == hi
+}
+
+// SuccDesc describes v like Desc, but looks through (T…, error) helpers of Helios: a value obtained
+// as result i of a helper call is described by what the helper returns as result i on its success
+// return (error result nil), with the helper's parameters replaced by the call-site arguments.  The
+// description is therefore that of the value "given that the helper did not fail", which is how
+// callers use it after testing the error.
+func (p *Program) SuccDesc(v ssa.Value, depth int) string {
+	d := p.Desc(v, nil)
+	if depth > 3 {
+		return d
+	}
+	seen := map[ssa.Value]bool{}
+	var walk func(x ssa.Value, k int)
+	walk = func(x ssa.Value, k int) {
+		if x == nil || seen[x] || k > 5 {
+			return
+		}
+		seen[x] = true
+		if ex, ok := x.(*ssa.Extract); ok {
+			if call, ok := ex.Tuple.(*ssa.Call); ok {
+				if s, ok := p.successResult(call, ex.Index, depth); ok {
+					d = strings.ReplaceAll(d, p.Desc(ex, nil), s)
+				}
+			}
+		}
+		if in, ok := x.(ssa.Instruction); ok {
+			for _, op := range in.Operands(nil) {
+				if *op != nil {
+					walk(*op, k+1)
+				}
+			}
+		}
+	}
+	walk(v, 0)
+	return d
+}
+
+func (p *Program) successResult(call *ssa.Call, idx int, depth int) (string, bool) {
+	h := StaticFn(call)
+	if h == nil || !p.IsHelios(h) || h.Blocks == nil {
+		return "", false
+	}
+	rs := h.Signature.Results()
+	if rs.Len() < 2 || idx >= rs.Len()-1 || rs.At(rs.Len()-1).Type().String() != "error" {
+		return "", false
+	}
+	out, n := "", 0
+	same := true
+	instrsOf(h, func(in ssa.Instruction) {
+		r, ok := in.(*ssa.Return)
+		if !ok || len(r.Results) != rs.Len() || !isConstNil(r.Results[rs.Len()-1]) {
+			return
+		}
+		s := p.SuccDesc(r.Results[idx], depth+1)
+		if n > 0 && s != out {
+			same = false
+		}
+		out = s
+		n++
+	})
+	if n == 0 || !same {
+		return "", false
+	}
+	for i, prm := range h.Params {
+		if i >= len(call.Call.Args) {
+			break
+		}
+		re := regexp.MustCompile(`param:` + regexp.QuoteMeta(prm.Name()) + `\b`)
+		arg := p.SuccDesc(call.Call.Args[i], depth+1)
+		out = re.ReplaceAllLiteralString(out, arg)
+	}
+	return out, true
 }
